@@ -29,7 +29,46 @@ def hashseed(seed, shard, tier):
     return str((seed * 7919 + shard * 104729 + (1 if tier == "thorough" else 0)) % 4294967295)
 
 
+def _cov_start():
+    """development aid (G3DVERIF_COV=<dir>): line coverage of the library under the checks, via sys.monitoring"""
+    d = os.environ.get("G3DVERIF_COV")
+    if not d or not hasattr(sys, "monitoring"):
+        return None
+    mon = sys.monitoring
+    tool = mon.COVERAGE_ID
+    hits = set()
+    root = os.path.join(os.path.abspath(REPO), "Geometry3D") + os.sep
+
+    def on_line(code, line):
+        fn = code.co_filename
+        if fn.startswith(root):
+            hits.add((fn[len(root):], line))
+        return mon.DISABLE
+
+    mon.use_tool_id(tool, "g3dverif-cov")
+    mon.register_callback(tool, mon.events.LINE, on_line)
+    mon.set_events(tool, mon.events.LINE)
+    return d, hits
+
+
+def _cov_stop(state, tag):
+    if not state:
+        return
+    d, hits = state
+    os.makedirs(d, exist_ok=True)
+    with open(os.path.join(d, tag + ".json"), "w") as f:
+        json.dump(sorted(hits), f)
+
+
 def worker_main(args):
+    cov = _cov_start()
+    try:
+        return _worker_main(args)
+    finally:
+        _cov_stop(cov, "%s_%s_%d_%d" % (args.id, args.tier, args.seed, args.shard))
+
+
+def _worker_main(args):
     from . import engine
 
     prop = load_prop(args.id)
